@@ -42,6 +42,7 @@ pub fn replay(args: &Args) -> Summary {
     let cases = read_cases(args.pos(2));
     let bound = Duration::from_secs(args.opt_u64("hang-bound-s", 20));
     set_scheduler(Some(Arc::new(dispatch)));
+    h_common::QUIET_ALL.store(true, Ordering::Relaxed); // planned panics of guard-holding tasks
     let mut hangs = 0;
     let mut diverged = 0u64;
     for case in &cases {
@@ -49,7 +50,7 @@ pub fn replay(args: &Args) -> Summary {
         let steps = case["steps"].as_array().unwrap();
         let key: String = steps
             .iter()
-            .map(|st| format!("{}{}", &st["who"].as_str().unwrap()[..1], st["g"]))
+            .map(|st| format!("{}{}{}", &st["who"].as_str().unwrap()[..1], st["g"], if st["exit"] == "panic" { "!" } else { "" }))
             .collect::<Vec<_>>()
             .join("");
         // non-trivial: some guard step happens after the waiter armed its first Notified
@@ -92,9 +93,18 @@ fn forced_run(n: usize, steps: &[Value], bound: Duration) -> Outcome {
     for g in 1..=n {
         let guard = counter.guard();
         let sc = sched.clone();
+        // how the model lets this guard's task end: by return, or by a panic whose unwinding drops the guard
+        let panics = steps.iter().any(|st| st["who"] == "G1" && st["g"].as_u64() == Some(g as u64) && st["exit"] == "panic");
         handles.push(std::thread::spawn(move || {
             sc.enter(g);
-            drop(guard);
+            if panics {
+                let _ = std::panic::catch_unwind(std::panic::AssertUnwindSafe(move || {
+                    let _held = guard;
+                    panic!("planned panic of the task holding guard {g}");
+                }));
+            } else {
+                drop(guard);
+            }
             sc.finish(g);
         }));
     }
@@ -283,7 +293,9 @@ pub fn record(args: &Args) -> Summary {
     let mut tw = TraceWriter::create(args.opt("out").expect("--out"));
     let rt = tokio::runtime::Builder::new_multi_thread().worker_threads(4).max_blocking_threads(16).enable_all().build().unwrap();
     rng_seed(seed);
+    h_common::QUIET_ALL.store(true, Ordering::Relaxed);
     let mut hangs = 0;
+    let mut panicking = 0u64;
     for run in 0..runs {
         let n = rng_next() % (maxg + 1);
         // 2 of 3 runs: schedule points log and jitter; 1 of 3: no callback at all (points are no-ops)
@@ -299,6 +311,8 @@ pub fn record(args: &Args) -> Summary {
             let hseed = seed ^ (run << 8) ^ g;
             let style = rng_next() % 3;
             let pre = rng_next() % 4;
+            let exit_by_panic = rng_next() % 4 == 0;
+            panicking += exit_by_panic as u64;
             let body = move || {
                 rng_seed(hseed);
                 for _ in 0..pre {
@@ -308,7 +322,15 @@ pub fn record(args: &Args) -> Summary {
                 if !instrumented {
                     log(json!({"name": "guard", "g": g, "at": "counter.drop.0"}));
                 }
-                drop(guard);
+                if exit_by_panic {
+                    // the task panics: the guard is dropped by the unwinding
+                    let _ = std::panic::catch_unwind(std::panic::AssertUnwindSafe(move || {
+                        let _held = guard;
+                        panic!("planned panic of the task holding guard {g}");
+                    }));
+                } else {
+                    drop(guard);
+                }
                 if !instrumented {
                     log(json!({"name": "guard", "g": g, "at": "counter.drop.2"}));
                 }
@@ -381,6 +403,7 @@ pub fn record(args: &Args) -> Summary {
         }
     }
     set_scheduler(None);
+    s.set("guards_dropped_by_panic_unwind", json!(panicking));
     tw.finish();
     std::mem::forget(rt); // a hung waiter must not block the exit
     s
@@ -405,6 +428,9 @@ fn jitter_always() {
 
 /// The run whose storage backend may log (stragglers of earlier runs stay silent).
 static CURRENT_RUN: AtomicU64 = AtomicU64::new(u64::MAX);
+/// When set, the next write access of a blocking database task panics (once): that task leaves by a
+/// panic unwind, which drops its CounterGuard.
+static PANIC_ARMED: AtomicBool = AtomicBool::new(false);
 
 /// redb storage backend handed to `RedbStore::new`: an in-memory backend that logs every access of a
 /// blocking database task ("db" lines, drawn from the same sequence counter) and stretches writes and
@@ -422,6 +448,10 @@ impl LoggingBackend {
             return;
         }
         log(json!({"name": "db", "op": op}));
+        if op == "write" && PANIC_ARMED.swap(false, Ordering::SeqCst) {
+            log(json!({"name": "task_panics"}));
+            panic!("injected panic inside a blocking database task");
+        }
         if slow {
             std::thread::sleep(Duration::from_micros(100 + rng_next() % 1400));
         }
@@ -467,6 +497,7 @@ pub fn record_redb(args: &Args) -> Summary {
     ANON.store(true, Ordering::Relaxed);
     JITTER.store(true, Ordering::Relaxed);
     set_scheduler(Some(Arc::new(observe)));
+    h_common::QUIET_ALL.store(true, Ordering::Relaxed);
     let mut generator = ExtendedHeaderGenerator::new();
     let headers = generator.next_many(24);
     let mut hangs = 0;
@@ -540,6 +571,10 @@ pub fn record_redb(args: &Args) -> Summary {
                 let _ = jh.await; // an aborted task resolves once its future has been dropped
             }
             let store = Arc::try_unwrap(store).expect("every caller is gone");
+            // one run in three: a blocking task that is still running panics (the waiter is about to park)
+            if choices[0] % 3 == 0 {
+                PANIC_ARMED.store(true, Ordering::SeqCst);
+            }
             log(json!({"name": "closing"}));
             let r = tokio::time::timeout(bound, store.close()).await;
             log(json!({"name": "closed"}));
@@ -559,7 +594,8 @@ pub fn record_redb(args: &Args) -> Summary {
             }
         }
         CURRENT_RUN.store(u64::MAX, Ordering::SeqCst); // dropping the database is the harness' own business
-        drop(db);
+        PANIC_ARMED.store(false, Ordering::SeqCst);
+        let _ = h_common::catch(move || drop(db)); // (a database whose task panicked may refuse a clean shutdown)
         let events = take_log();
         let created = events.iter().filter(|e| e["name"] == "created").count();
         let closed_at = events.iter().position(|e| e["name"] == "closed").unwrap();
@@ -577,6 +613,7 @@ pub fn record_redb(args: &Args) -> Summary {
                || json!({"run": run, "guards": created, "callers_cancelled": cancelled, "db_accesses_after_close_was_called": db_after_closing}));
         s.add("redb_runs_with_work_in_flight_at_close", (db_after_closing > 0) as u64);
         s.add("redb_callers_cancelled", cancelled as u64);
+        s.add("redb_tasks_panicked", events.iter().filter(|e| e["name"] == "task_panics").count() as u64);
         if !outcome {
             hangs += 1;
             s.violation(PROP, json!({"mode": "redb-close", "kind": "hang", "run": run, "seed": seed,
